@@ -368,5 +368,21 @@ pub fn check(tier: &str) -> i32 {
     rep.require("api-strings", "refused");
     rep.require("api-strings", "still_serving");
     rep.require("hostile-names-in-packets", "still_serving");
+    // conflict renames that have to shorten a label holding a multi-byte character
+    let cut_labels: Vec<String> = crate::c08::multibyte_labels("", "").into_iter().collect::<std::collections::BTreeSet<_>>().into_iter().collect();
+    let ncut = cut_labels.len() as u64;
+    let cl = cut_labels.clone();
+    let cut = FnPart {
+        name: "rename-cuts".into(),
+        rule: format!("{} first labels of 56..63 bytes with one 2-, 3- or 4-byte character at every byte offset from 48 on, registered as instance name and as host name; a conflict while probing forces the rename that shortens the label; then 3 s and the still-serving test", cut_labels.len()),
+        n: ncut * 2,
+        describe: Box::new(move |i| format!("{} {:?}", if i % 2 == 0 { "RegisterInstance" } else { "RegisterHost" }, cl[(i / 2) as usize])),
+        run: Box::new(move |i, tr| {
+            let l = &cut_labels[(i / 2) as usize];
+            if i % 2 == 0 { run_api(Func::RegisterInstance, l, tr) } else { run_api(Func::RegisterHost, &format!("{l}.local."), tr) }
+        }),
+    };
+    rep.run_part(&cut, Duration::from_secs(if thorough { 1200 } else { 40 }));
+    rep.require("rename-cuts", "accepted");
     rep.finish()
 }
